@@ -408,6 +408,11 @@ func genOp0(r *rng, cur *jv, c genCfg) opSpec {
 		return opSpec{op: "replace", path: pathOrExisting(75), value: val()}
 	case k < 67:
 		f := pathOrExisting(85)
+		if r.chance(1, 8) {
+			// destination spelled as an extension of the source: a sibling ("/a" -> "/a_old", "/l/1" -> "/l/10")
+			// or a location inside the moved value ("/a" -> "/a/n0")
+			return opSpec{op: "move", path: f + r.pick([]string{"_old", "0", "/n0", "x", "/0"}), from: &f}
+		}
 		return opSpec{op: "move", path: pickPath(r, cur, true), from: &f}
 	case k < 80:
 		f := pathOrExisting(85)
@@ -1099,12 +1104,15 @@ func streamDecode(r *rng, n int, pfx string) {
 				}
 			}
 			member("op", encString(kind, false))
-			member("path", encString(r.pick([]string{"/a", "", "/a/b", "/0", "x"}), false))
+			// path and from drawn from one pool, so that they are often related (equal, a character-wise
+			// prefix, a proper pointer prefix, siblings): decoding must not care
+			ptrs := []string{"/a", "", "/a/b", "/0", "x", "/b", "/bb", "/b/c", "/a_old", "/a/1", "/a/10", "/", "/~0", "/~1x", "/a/-"}
+			member("path", encString(r.pick(ptrs), false))
 			if kind == "add" || kind == "replace" || kind == "test" || r.chance(1, 6) {
 				member("value", r.pick(vals))
 			}
 			if kind == "move" || kind == "copy" || r.chance(1, 6) {
-				member("from", encString("/b", false))
+				member("from", encString(r.pick([]string{"/b", "/b", "/a", "", "/", "/a/1", "/a/b", "x", "/~0"}), false))
 			}
 			if r.chance(1, 5) {
 				ms = append(ms, `"extra":[1,2]`)
